@@ -14,7 +14,7 @@ THEOREMS = ['C11_utf8_roundtrip', 'C11_utf8_is_rfc3629', 'C11_utf8_decode', 'C11
             'C11_decode_rejects_bad_continuation', 'C11_utf16_bmp', 'C11_utf16_surrogates',
             'C11_ident_start_ranges', 'C11_ident_cont_ranges', 'C11_int_literal_type', 'C11_nonvacuous',
             # package escapes (Properties_C11_escapes.v)
-            'C11_escape_value', 'C11_escape_value_exact', 'C11_escape_rejects_bare_x', 'C11_string_stored', 'C11_string_literal', 'C11_string_unclosed', 'C11_char_constant', 'C11_char_constant_stored', 'C11_char_unclosed', 'C11_char_multichar', 'C11_char_multichar_escaped_quote_refuted', 'C11_escapes_nonvacuous', 'C11_int_suffix_iff', 'C11_int_constant', 'C11_int_constant_iff', 'C11_int_rejects_dot', 'C11_int_constant_iff_refuted', 'C11_int_overflow_saturates', 'C11_int_recogniser', 'C11_ucn_replaced', 'C11_ucn_string_literal', 'C11_ucn_char_constant', 'C11_ucn_zero_kept', 'C11_escapes_nonvacuous_int_ucn']
+            'C11_escape_value', 'C11_escape_value_exact', 'C11_escape_rejects_bare_x', 'C11_string_stored', 'C11_string_literal', 'C11_string_unclosed', 'C11_char_constant', 'C11_char_constant_stored', 'C11_char_unclosed', 'C11_char_multichar', 'C11_char_multichar_escaped_quote', 'C11_escapes_nonvacuous', 'C11_int_suffix_iff', 'C11_int_constant', 'C11_int_constant_iff', 'C11_int_rejects_dot', 'C11_int_doubled_prefix', 'C11_int_overflow_saturates', 'C11_int_recogniser', 'C11_ucn_replaced', 'C11_ucn_string_literal', 'C11_ucn_char_constant', 'C11_ucn_zero_kept', 'C11_escapes_nonvacuous_int_ucn']
 MODELRUN = os.path.join(VERIF, 'ocaml/modelrun')
 PRINTF = 'int printf(const char *, ...);\n'
 SUFFIXES = ['', 'u', 'U', 'l', 'L', 'll', 'LL', 'ul', 'uL', 'Ul', 'UL', 'lu', 'lU', 'Lu', 'LU',
